@@ -151,6 +151,21 @@ func init() {
 			x.searches[a[0].(string)] = true
 			return nil
 		},
+		// vSearchNone(prefix, tries, f): like vSearch for reachability obligations: natively the failure is that f
+		// never reports the outcome in all tries.
+		"vSearchNone": func(x *Exec, fn *ssa.Function, a []Value) Value {
+			if x.searches == nil {
+				x.searches = map[string]bool{}
+			}
+			x.searches[a[0].(string)] = true
+			return nil
+		},
+		// vReach(cond, id): the property requires that cond is possible here (a value of the declared support, a
+		// sign, ...): decided as satisfiability of path && cond.
+		"vReach": func(x *Exec, fn *ssa.Function, a []Value) Value {
+			x.addObligation(&Obligation{ID: a[1].(string), Kind: "reach", Cond: x.ts.Not(x.term(a[0])), Expect: "sat"})
+			return nil
+		},
 		"vUncut": func(x *Exec, fn *ssa.Function, a []Value) Value {
 			delete(x.cuts, a[0].(string))
 			return nil
